@@ -154,12 +154,12 @@ class Stats:
             if len(self.samples) < 6:
                 self.samples.append(s)
         for k, v in other.extra.items():
-            if isinstance(v, (int, float)) and isinstance(self.extra.get(k), (int, float)):
+            if isinstance(v, bool):
+                self.extra[k] = bool(self.extra.get(k, True)) and v
+            elif isinstance(v, (int, float)) and isinstance(self.extra.get(k), (int, float)):
                 self.extra[k] += v
             elif isinstance(v, set) and isinstance(self.extra.get(k), set):
                 self.extra[k] |= v
-            elif isinstance(v, bool) and k in self.extra:
-                self.extra[k] = self.extra[k] and v
             else:
                 self.extra.setdefault(k, v)
         self.notes.extend(other.notes)
